@@ -218,10 +218,11 @@ def topClauses : List (String × (Dump → Aux → Bool)) := [
         | some sd => td == sd
         | none =>
           let ls := d.levels.filter (fun l => decide (0 ≤ l.depth) && l.type == (t : Int))
+          -- several levels of one type (asymmetric trees; typically Groups): HWLOC_TYPE_DEPTH_MULTIPLE
           match ls with
           | [] => td == -1
           | [l] => td == l.depth
-          | _ => t == tGROUP && td == -2)),
+          | _ => td == -2)),
   ("allowed-sets", fun d _ => match d.objs[0]? with
       | some r =>
         d.allowedCpuset.isSome && d.allowedNodeset.isSome &&
